@@ -301,6 +301,15 @@ def rule_last_write(ctx, f):
         plain_insert = any("HashMap" in F.callee_name(t) and last_seg(F.callee_name(t)) == "insert" for bi, t in F.calls(b))
         occ_insert = any("OccupiedEntry" in F.callee_name(t) and last_seg(F.callee_name(t)) == "insert" for bi, t in F.calls(b))
         ok = not keep and bool(ins) and (over or plain_insert or occ_insert)
+        # the merge of a second update into a pending dictionary takes every entry of the new value, a null one included (null is how an
+        # entry is removed)
+        ap = f.body("primitive::Dictionary::append")
+        if ap is not None and any(last_seg(F.callee_name(t)) == "append" and "Dictionary" in F.callee_name(t) for bi, t in F.calls(b)):
+            names = {last_seg(F.callee_name(t)) for bb in f.with_closures(ap["id"]) for bi, t in F.calls(bb)}
+            drop = sorted(names & {"filter", "filter_map", "skip", "take", "take_while", "skip_while", "retain", "step_by"})
+            ctx.check(not drop and bool(names & {"extend", "insert", "append"}), "C09-G4", "primitive::Dictionary::append#all-entries", "Dictionary::append (the merge used by a "
+                      "second update of the same object) applies %s to the new entries: some of what the caller wrote - a null that removes a key, say - does not reach "
+                      "the pending value" % drop, ap["span"], detail="self.dict.extend(other.dict)")
         ctx.check(ok, "C09-G4", b["id"] + "#overwrites", "a second update of the same object does not replace the pending value (%s): reads before save and the saved file "
                   "show the first value written, not the last" % (("uses " + ", ".join(keep)) if keep else "no store on the occupied entry"), b["span"],
                   detail="Vacant => insert, Occupied => *old = new")
@@ -316,6 +325,9 @@ def run(ctx):
     rule_reserve(ctx, f)
     rule_identity(ctx, f)
     rule_last_write(ctx, f)
+    import c10
+    ctx.rule("C09-G5", "what save writes can be read back and saved again: /Size is exactly the number of the cross-reference stream plus one (shared with C10-G2)")
+    c10.rule_size_exact(ctx, f, "C09-G5")
     rule_append(ctx, f)
     adj.rule_framing(ctx, f, "C09")
     return ctx.finish(
